@@ -16,6 +16,7 @@
 From Coq Require Import ZArith NArith List Bool String.
 Import ListNotations.
 From Verif Require Import Lib.Corr Gen.C29.
+From Verif Require Model.C31.
 
 (* ---- tie T ---- *)
 Definition ev_eqb (a b : string * string) : bool :=
@@ -55,7 +56,10 @@ Definition memS := mem sample_eqb.
 Definition subS := subset sample_eqb.
 
 (* ---- state ---- *)
-Record mb := mkmb { m_sources : list N; m_samples : list sample; m_marked : bool }.
+(* a visible block: sources, samples, deletion mark; compaction group (external labels and
+   resolution), compaction level, time range [mint, maxt) *)
+Record mb := mkmb { m_sources : list N; m_samples : list sample; m_marked : bool;
+                    m_group : N; m_level : Z; m_mint : Z; m_maxt : Z }.
 Definition state := list (N * mb).
 
 Fixpoint find (st : state) (id : N) : option mb :=
@@ -63,14 +67,15 @@ Fixpoint find (st : state) (id : N) : option mb :=
 Fixpoint remove (st : state) (id : N) : state :=
   match st with [] => [] | (i, b) :: r => if N.eqb id i then remove r id else (i, b) :: remove r id end.
 Definition set_marked (st : state) (id : N) : state :=
-  map (fun p => if N.eqb (fst p) id then (fst p, mkmb (m_sources (snd p)) (m_samples (snd p)) true) else p) st.
+  map (fun p => if N.eqb (fst p) id then (fst p, mkmb (m_sources (snd p)) (m_samples (snd p)) true (m_group (snd p)) (m_level (snd p)) (m_mint (snd p)) (m_maxt (snd p))) else p) st.
 
-Record cblk := mkcb { cb_sources : list N; cb_parents : list N; cb_samples : list sample }.
+Record cblk := mkcb { cb_sources : list N; cb_parents : list N; cb_samples : list sample;
+                      cb_group : N; cb_level : Z; cb_mint : Z; cb_maxt : Z }.
 Inductive hop := HAdd (id : N) (b : cblk) | HMark (id : N) | HDel (id : N).
 
 Definition apply_hop (st : state) (o : hop) : state :=
   match o with
-  | HAdd id b => st ++ [(id, mkmb (cb_sources b) (cb_samples b) false)]
+  | HAdd id b => st ++ [(id, mkmb (cb_sources b) (cb_samples b) false (cb_group b) (cb_level b) (cb_mint b) (cb_maxt b))]
   | HMark id => set_marked st id
   | HDel id => remove st id
   end.
@@ -110,6 +115,9 @@ Definition hop_ok (st : state) (o : hop) : bool :=
              && forallb (fun p => forallb (fun q => negb (subN (m_sources p) (m_sources (snd q)))
                                                     || subN (m_sources (snd q)) (m_sources p)) st) ps
              && pairwise_disjoint (map m_sources ps)
+             (* same compaction group as every parent; the time range contains theirs *)
+             && forallb (fun p => N.eqb (m_group p) (cb_group b)
+                                  && Z.leb (cb_mint b) (m_mint p) && Z.leb (m_maxt p) (cb_maxt b)) ps
          end
   | HMark id =>
       (* a block is retired only when another visible, unmarked block contains all its sources *)
@@ -124,6 +132,12 @@ Definition hop_ok (st : state) (o : hop) : bool :=
   end.
 
 (* ---- cases ---- *)
+(* metadata of the original blocks: compaction group, time range *)
+Record ometa := mkom { og : N; omint : Z; omaxt : Z }.
+Definition om (id : N) (g : N) (mint maxt : Z) : N * ometa := (id, mkom g mint maxt).
+Fixpoint ometa_of (G : list (N * ometa)) (id : N) : ometa :=
+  match G with [] => mkom 0 0 0 | (i, m) :: r => if N.eqb id i then m else ometa_of r id end.
+
 Definition ib (id : N) (l : list sample) : N * list sample := (id, l).
 
 (* after an event: what a store gateway's fetcher selects, with deletion marks hidden at once
@@ -132,10 +146,27 @@ Definition step := (hop * list N * list N)%type.
 Definition mkstep (o : hop) (sel0 sel1 : list N) : step := (o, sel0, sel1).
 
 Inductive case :=
-  CHist (vertical : bool) (init : list (N * list sample)) (sel0 sel1 : list N) (steps : list step) (quiescent : bool).
+  CHist (vertical : bool) (G : list (N * ometa)) (init : list (N * list sample)) (sel0 sel1 : list N)
+        (steps : list step) (quiescent : bool).
 
-Definition init_state (init : list (N * list sample)) : state :=
-  map (fun p => (fst p, mkmb [fst p] (snd p) false)) init.
+Definition init_state (G : list (N * ometa)) (init : list (N * list sample)) : state :=
+  map (fun p => let m := ometa_of G (fst p) in
+                (fst p, mkmb [fst p] (snd p) false (og m) 1 (omint m) (omaxt m))) init.
+
+(* ---- the store gateway's selection: deletion-mark filter, then DefaultDeduplicateFilter
+   (the model of property C31, imported) ---- *)
+Definition eligible (hide : bool) (st : state) : state :=
+  filter (fun p => negb (hide && m_marked (snd p))) st.
+
+Definition to31 (p : N * mb) : C31.blk :=
+  C31.mk_blk (Z.of_N (fst p)) (Z.of_N (m_group (snd p))) (map Z.of_N (m_sources (snd p))) (m_level (snd p)).
+
+Definition sg_select (st : state) (hide : bool) : list N :=
+  let e := eligible hide st in
+  let l := map to31 e in
+  map fst (filter (fun p => negb (C31.hidden l (to31 p))) e).
+
+Definition sel_eq (a b : list N) : bool := seteq N.eqb a b.
 
 Fixpoint legal (st : state) (l : list hop) : bool :=
   match l with
@@ -143,16 +174,29 @@ Fixpoint legal (st : state) (l : list hop) : bool :=
   | o :: r => hop_ok st o && legal (apply_hop st o) r
   end.
 
+(* the observed selections are the ones the model of the filter chain computes *)
+Fixpoint sel_steps (st : state) (l : list step) : bool :=
+  match l with
+  | [] => true
+  | (o, s0, s1) :: r =>
+      let st' := apply_hop st o in
+      sel_eq s0 (sg_select st' true) && sel_eq s1 (sg_select st' false) && sel_steps st' r
+  end.
+
+Definition in_range (mint maxt : Z) (s : sample) : bool := Z.leb mint (snd (fst s)) && Z.ltb (snd (fst s)) maxt.
+
 Definition corr_ok (c : case) : bool :=
   match c with
-  | CHist _ init _ _ steps _ =>
-      order_ok && nodup N.eqb (map fst init) && forallb (fun p => nodup sample_eqb (snd p)) init && legal (init_state init) (map (fun s => fst (fst s)) steps)
+  | CHist _ G init s0 s1 steps _ =>
+      order_ok && nodup N.eqb (map fst init) && forallb (fun p => nodup sample_eqb (snd p)) init
+      && legal (init_state G init) (map (fun s => fst (fst s)) steps)
+      (* the samples of an original block lie in its time range *)
+      && forallb (fun p => forallb (in_range (omint (ometa_of G (fst p))) (omaxt (ometa_of G (fst p)))) (snd p)) init
+      && sel_eq s0 (sg_select (init_state G init) true) && sel_eq s1 (sg_select (init_state G init) false)
+      && sel_steps (init_state G init) steps
   end.
 
 (* ---- the property on the observed selections ---- *)
-Definition eligible (hide : bool) (st : state) : state :=
-  filter (fun p => negb (hide && m_marked (snd p))) st.
-
 (* what C31 guarantees of the duplicate filter: only eligible blocks are selected and every
    eligible block's sources are contained in a selected block's *)
 Definition cover_ok (st : state) (hide : bool) (sel : list N) : bool :=
@@ -209,29 +253,55 @@ Fixpoint last_view (st : state) (s0 s1 : list N) (l : list step) : state * list 
 
 Definition cover_all (c : case) : bool :=
   match c with
-  | CHist _ init s0 s1 steps _ =>
-      cover_ok (init_state init) true s0 && cover_ok (init_state init) false s1
-      && antichain_ok (init_state init) s0 && antichain_ok (init_state init) s1
-      && cover_steps (init_state init) steps
+  | CHist _ G init s0 s1 steps _ =>
+      cover_ok (init_state G init) true s0 && cover_ok (init_state G init) false s1
+      && antichain_ok (init_state G init) s0 && antichain_ok (init_state G init) s1
+      && cover_steps (init_state G init) steps
   end.
 
 Definition served_all (c : case) : bool :=
   match c with
-  | CHist _ init s0 s1 steps _ =>
-      served_ok init (init_state init) s0 && served_ok init (init_state init) s1
-      && served_steps init (init_state init) steps
+  | CHist _ G init s0 s1 steps _ =>
+      served_ok init (init_state G init) s0 && served_ok init (init_state G init) s1
+      && served_steps init (init_state G init) steps
   end.
 
 (* once compaction has finished every sample is served exactly once *)
 Definition once_ok (c : case) : bool :=
   match c with
-  | CHist _ init s0 s1 steps q =>
+  | CHist _ G init s0 s1 steps q =>
       if q then
-        match last_view (init_state init) s0 s1 steps with
+        match last_view (init_state G init) s0 s1 steps with
         | (st, f0, f1) => nodup sample_eqb (served_list st f0) && nodup sample_eqb (served_list st f1)
         end
       else true
   end.
+
+(* compaction has finished (also vertical compaction): no two selected blocks of one
+   compaction group overlap in time - the planner finds nothing to merge *)
+Definition ranges_meet (a c : mb) : bool := Z.ltb (m_mint a) (m_maxt c) && Z.ltb (m_mint c) (m_maxt a).
+Definition quiet_ok (st : state) (sel : list N) : bool :=
+  nodup N.eqb sel &&
+  forallb (fun i => forallb (fun j => N.eqb i j ||
+     match find st i, find st j with
+     | Some a, Some c => negb (N.eqb (m_group a) (m_group c)) || negb (ranges_meet a c)
+     | _, _ => false
+     end) sel) sel.
+
+Definition quiet_all (c : case) : bool :=
+  match c with
+  | CHist _ G init s0 s1 steps q =>
+      if q then
+        match last_view (init_state G init) s0 s1 steps with
+        | (st, f0, f1) => quiet_ok st f0 && quiet_ok st f1
+        end
+      else true
+  end.
+
+(* original blocks of different compaction groups (different external labels) share no sample *)
+Definition groups_disjoint_b (G : list (N * ometa)) (init : list (N * list sample)) : bool :=
+  forallb (fun p => forallb (fun q => N.eqb (og (ometa_of G (fst p))) (og (ometa_of G (fst q)))
+                                      || disjoint sample_eqb (snd p) (snd q)) init) init.
 
 (* the original blocks share no sample (no overlapping input) *)
 Fixpoint orig_disjoint_b (init : list (N * list sample)) : bool :=
@@ -240,4 +310,4 @@ Fixpoint orig_disjoint_b (init : list (N * list sample)) : bool :=
   | p :: r => forallb (fun q => disjoint sample_eqb (snd p) (snd q)) r && orig_disjoint_b r
   end.
 
-Definition pred_ok (c : case) : bool := cover_all c && served_all c && once_ok c.
+Definition pred_ok (c : case) : bool := cover_all c && served_all c && quiet_all c && once_ok c.
